@@ -127,6 +127,86 @@ def worker(args):
     return out
 
 
+def abstract_worker(args):
+    """obligations for EVERY worker count 1 <= n <= 2^24 through an abstraction of the one transcendental step:
+    the MIR of calculate_scopes is executed with `f32::sqrt` returning an arbitrary s in [0,1]; lemmas (solver-decided, no
+    abstraction) tie the real argument of sqrt to that interval.  Returns result dicts like worker()."""
+    mirfile, profile, cap = args
+    out = []
+    t0 = time.time()
+    NMAX = 1 << 24
+    try:
+        RNE = z3.RNE()
+        Z, O = z3.FPVal(0.0, F32), z3.FPVal(1.0, F32)
+        count = z3.BitVec('count', 32)
+        i = z3.BitVec('i', 32)
+        s_ = z3.FP('s', F32)
+        s2 = z3.FP('s2', F32)
+        M = mirx.load(mirfile, None)
+        seen = {}
+
+        def range_next(M_, st, args):
+            k = st.depth.get('rn', 0)
+            st.depth['rn'] = k + 1
+            return some(Int(i, 32)) if k < 1 else NONE()
+
+        def sqrt_abs(M_, st, args):
+            seen['arg'] = args[0].v          # the term the real code takes the square root of
+            return mirx.Flt(s_)
+        M.overrides['<std::ops::Range<u32> as Iterator>::next'] = range_next
+        M.overrides['f32::<impl f32>::sqrt'] = sqrt_abs
+        st = State()
+        unit = [z3.fpGEQ(s_, Z), z3.fpLEQ(s_, O)]
+        st.pc = unit + [z3.UGE(count, 1), z3.ULE(count, NMAX), z3.ULT(i, count)]
+        st.frames = [Frame(M.fns['calculate_scopes'], [Int(count, 32)], None, None)]
+        res = M.run(st)
+        paths = []
+        for r in res:
+            if isinstance(r.result, tuple):
+                sv = z3.Solver(); sv.add(*r.pc); c = sv.check()
+                out.append(dict(ob='abs:no-overflow', status='sat' if c == z3.sat else str(c), n=0, i=0, msg=r.result[1], abstract=True))
+                continue
+            paths.append((r.pc, [x.z() for x in r.result.items[0].f]))
+
+        def rec(name, c, dt, m=None, a=None):
+            d = dict(ob=name, status=str(c), solver_s=round(dt, 2), lo=1, hi=NMAX, abstract=True)
+            if str(c) == 'sat' and m is not None:
+                d.update(n=m.eval(count, True).as_long(), i=m.eval(i, True).as_long(), a=[m.eval(x, True).as_long() for x in a] if a else None, b=None)
+            out.append(d)
+        for pc, a in paths:
+            c, m, dt, sv = decide(pc, valid(a[2], a[3]), cap); rec('abs:valid-end', c, dt, m, a)
+            c, m, dt, sv = decide(pc, z3.And(a[0] == 0, a[1] == 1), cap); rec('abs:first-start', c, dt, m, a)
+            c, m, dt, sv = decide(pc + [z3.fpIsZero(s_), z3.Not(z3.fpIsNegative(s_))], z3.And(a[2] == 48, a[3] == 49), cap); rec('abs:last-end(s=+0)', c, dt, m, a)
+        if not paths:
+            out.append(dict(ob='abs:valid-end', status='unknown', abstract=True))
+        # lemmas linking the abstraction to the real code (no abstraction inside them)
+        arg = seen.get('arg')
+        if arg is None:
+            out.append(dict(ob='abs:lemma-sqrt-argument-in-[0,1]', status='unknown', abstract=True))
+        else:
+            base = [z3.UGE(count, 1), z3.ULE(count, NMAX), z3.ULT(i, count)]
+            c, m, dt, sv = decide(base, z3.And(z3.fpGEQ(arg, Z), z3.fpLEQ(arg, O)), cap); rec('abs:lemma-sqrt-argument-in-[0,1]', c, dt, m)
+            c, m, dt, sv = decide(base + [i + 1 == count], z3.And(z3.fpIsZero(arg), z3.Not(z3.fpIsNegative(arg))), cap); rec('abs:lemma-last-argument-is-+0', c, dt, m)
+        x = z3.FP('x', F32)
+        sq = z3.fpSqrt(RNE, x)
+        c, m, dt, sv = decide([z3.fpGEQ(x, Z), z3.fpLEQ(x, O)], z3.And(z3.fpGEQ(sq, Z), z3.fpLEQ(sq, O), z3.Implies(z3.fpIsZero(x), z3.And(z3.fpIsZero(sq), z3.fpIsNegative(sq) == z3.fpIsNegative(x)))), cap)
+        rec('abs:lemma-sqrt-maps-[0,1]-into-[0,1]', c, dt)
+        # the end position is antitone in s (a later iteration has the smaller square root): pairs of paths
+        sub = [(s_, s2)]
+        for pc, a in paths:
+            for qc, b0 in paths:
+                qc2 = [z3.substitute(c_, *sub) for c_ in qc]
+                b = [z3.substitute(x_, *sub) for x_ in b0]
+                c, m, dt, sv = decide(list(pc) + qc2 + [z3.fpLEQ(s2, s_)], lex_le((a[2], a[3]), (b[2], b[3])), max(cap, 600))
+                rec('abs:end-antitone-in-s', c, dt)
+        out.append(dict(ob='_stats', lo=1, hi=NMAX, paths=len(paths), wall=round(time.time() - t0, 1), stmts=M.stats['stmts'], forks=M.stats['forks'],
+                        feas_queries=M.nq, feas_s=round(M.qtime, 1)))
+        log(f'abstract run {profile}: {len(paths)} paths, {time.time()-t0:.0f}s')
+    except Exception as e:
+        out.append(dict(ob='_error', msg=('unsupported: ' if isinstance(e, mirx.Unsupported) else 'internal: ' + type(e).__name__ + ' ') + str(e), lo=1, hi=NMAX))
+    return out
+
+
 def concrete_eval(mirfile, n):
     """translator validation: the encoding evaluated concretely for count=n -> list of scopes"""
     M = mirx.load(mirfile, None)
@@ -165,7 +245,8 @@ def main():
     N = 32 if a.tier == 'quick' else 256
     cap = 240 if a.tier == 'quick' else 1800
     obs = []
-    assumptions = ['Range<u32>::next yields 0..count in order (std contract, S6)', 'f32 ops are IEEE-754 binary32 RNE; sqrt/floor/ceil/fmod as z3 fp.sqrt / roundToIntegral / x - RTZ(x) (validated against native runs below)',
+    assumptions = ['abs:* obligations: for every count <= 2^24 (u32 -> f32 exact) the real code equals the abstract run with s = sqrt(argument); "never steps backwards" for counts above N additionally needs that the sqrt argument does not increase with i and that fp.sqrt is monotone - textbook IEEE-754 facts (correct rounding of a monotone function is monotone) that z3 did not decide within 20 min, so that part of the claim beyond N is an ASSUMPTION, not a solver verdict',
+                   'Range<u32>::next yields 0..count in order (std contract, S6)', 'f32 ops are IEEE-754 binary32 RNE; sqrt/floor/ceil/fmod as z3 fp.sqrt / roundToIntegral / x - RTZ(x) (validated against native runs below)',
                    'worker counts above N are outside the claim']
     try:
         mirs = {p: mir_dump(src, p, scope_rs) for p in (['dev', 'release'] if a.tier == 'thorough' else ['dev'])}
@@ -194,8 +275,12 @@ def main():
         chunks[0] = (1, chunks[0][1])
         jobs = [(mirs[p], p, lo, hi, cap) for p in mirs for lo, hi in chunks]
         from multiprocessing import Pool
-        with Pool(min(NCPU, len(jobs))) as pool:
+        with Pool(min(NCPU, len(jobs) + len(mirs))) as pool:
+            ares = pool.map_async(abstract_worker, [(mirs[p], p, cap) for p in mirs], chunksize=1)
             results = pool.map(worker, jobs, chunksize=1)
+            aresults = ares.get()
+        jobs = jobs + [(mirs[p], p, 1, 1 << 24, cap) for p in mirs]
+        results = results + aresults
         per = {}
         stats = []
         for job, rl in zip(jobs, results):
@@ -225,13 +310,13 @@ def main():
             elif unk:
                 obs.append(Obligation(ob, 'inconclusive', f'{len(unk)} of {q} queries returned {unk[0]["status"]} within {cap}s (chunk {unk[0].get("lo")}..{unk[0].get("hi")})', queries=q, solver_s=ss))
             else:
-                obs.append(Obligation(ob, 'holds', f'{q} queries UNSAT over 1 <= count <= {N}, all i', queries=q, solver_s=ss))
+                obs.append(Obligation(ob, 'holds', (f'{q} queries UNSAT for every 1 <= count <= 2^24 and every i < count (sqrt abstracted to an arbitrary s in [0,1], see the abs:lemma-* obligations)' if ob.startswith('abs:') else f'{q} queries UNSAT over 1 <= count <= {N}, all i'), queries=q, solver_s=ss))
         paths = sum(s['paths'] for s in stats)
         cov = dict(states=max(paths, 1), transitions=sum(o.queries for o in obs) + sum(s['feas_queries'] for s in stats),
                    traces_validated_against_impl=len(ns),
                    samples=[dict(obligation=o.name, status=o.status, detail=o.detail[:200]) for o in obs],
                    functions_encoded=['calculate_scopes (MIR of examples/multi-thread/scope.rs: IntToFloat, Add/Div/Sub/Mul, f32::sqrt/floor/ceil, Rem, saturating FloatToInt, SubWithOverflow/AddWithOverflow asserts, Vec::push, loop back edge)'],
-                   bounds=f'1 <= count <= {N}; every i < count; one symbolic loop iteration per path, pair obligations by instantiating the path formulas at i and i+1; chain on a genuine two-iteration run',
+                   bounds=f'concrete-sqrt runs: 1 <= count <= {N}; abstract runs (abs:*): every count <= 2^24; every i < count; one symbolic loop iteration per path, pair obligations by instantiating the path formulas at i and i+1; chain on a genuine two-iteration run',
                    profiles=list(mirs), chunks=len(chunks), mir_statements=sum(s['stmts'] for s in stats), per_query_cap_s=cap,
                    states_meaning='feasible MIR paths explored; transitions = solver queries (path feasibility + property)')
     except (Inconclusive, mirx.Unsupported) as e:
